@@ -54,4 +54,24 @@ Definition p_clean (w : world) (vacuum : bool) (order : list key) : list event :
 Definition p_delete (w : world) (ks : list key) : list event :=
   map EUnlinkLoose ks ++ [ESql (SDelete ks); ECommit].
 
+(* repack_pack(id): nothing indexed in the pack -> remove the file; otherwise copy the stored bytes of its live rows, in offset
+   order, into the temporary pack -1 (objs: key, new stored blob - recompressed or not, an oracle -, flag, size), flush+fsync+close,
+   re-point the rows to -1 with their new offsets (bulk update by primary key), COMMIT, remove the old pack, hard-link -1 back to
+   the id, re-point the rows to the id, COMMIT, remove -1 *)
+Definition REPACK : Z := (-1)%Z.
+Definition rows_of_pack (d : list row) (id : Z) : list row := filter (fun r => Z.eqb (rpack r) id) d.
+
+Definition p_repack_one (w : world) (id : Z) (objs : list pobj) : list event :=
+  match rows_of_pack (db w) id with
+  | [] => match get_pack w id with Some _ => [EUnlinkPack id] | None => [] end
+  | _ =>
+      EOpenPack REPACK :: map (fun o => EWrite (HPack REPACK) (oblob o)) objs ++
+      [EFlush (HPack REPACK); EFsync (HPack REPACK); EClose (HPack REPACK);
+       ESql (SUpdateRows (rows_from REPACK 0 objs)); ECommit;
+       EUnlinkPack id; ELinkPack REPACK id; ESql (SRepoint REPACK id); ECommit; EUnlinkPack REPACK]
+  end.
+
+(* _vacuum: COMMIT, VACUUM, commit *)
+Definition p_vacuum : list event := [ECommit; ECommit].
+
 End Programs.
